@@ -1,7 +1,14 @@
 package c04
 
 import (
+	"bytes"
+	"context"
+	"errors"
+	"io"
 	"testing"
+
+	"github.com/jdillenkofer/pithos/internal/storage"
+	"github.com/jdillenkofer/pithos/verifharness/gen"
 
 	"github.com/jdillenkofer/pithos/verifharness/dump"
 	"github.com/jdillenkofer/pithos/verifharness/ev"
@@ -29,16 +36,87 @@ func genCfg(thorough bool) prog.GenConfig {
 	}
 }
 
-func genCase(t *rapid.T, env *ev.Env) run.ProgCase {
-	stack := rapid.SampledFrom([]string{"P2", "P1", "P3", "N1"}).Draw(t, "stack")
-	return run.ProgCase{Stack: stack, Ops: genCfg(env.Thorough()).Gen(t)}
+// Abort is an upload whose source fails in mid-stream (a client that goes away): PutObject of Len bytes to key
+// "aborted" of the first bucket, the reader returns an error after FailAt bytes. It must fail, and the uploads
+// after it must still get ETags and checksums of their own bodies (seeded defect S-C04-3: pooled digests that
+// are released while a hash worker of the aborted upload is still writing into them).
+type Abort struct {
+	After  int    `json:"after"` // executed after step After (modulo the number of steps)
+	FailAt int    `json:"failAt"`
+	Class  string `json:"class,omitempty"`
 }
 
-func runCase(env *ev.Env, c run.ProgCase) ev.Outcome {
+// Case is a program plus aborted uploads between its steps.
+type Case struct {
+	run.ProgCase
+	Aborts []Abort `json:"aborts,omitempty"`
+}
+
+var errAborted = errors.New("verif: upload source failed")
+
+type failingReader struct {
+	r      io.Reader
+	failed bool
+}
+
+func (f *failingReader) Read(p []byte) (int, error) {
+	n, err := f.r.Read(p)
+	if err == io.EOF {
+		f.failed = true
+		return n, errAborted
+	}
+	return n, err
+}
+
+func genCase(t *rapid.T, env *ev.Env) Case {
+	stack := rapid.SampledFrom([]string{"P2", "P1", "P3", "N1"}).Draw(t, "stack")
+	c := Case{ProgCase: run.ProgCase{Stack: stack, Ops: genCfg(env.Thorough()).Gen(t)}}
+	if rapid.IntRange(0, 3).Draw(t, "aborts") == 1 {
+		n := rapid.IntRange(1, 3).Draw(t, "nAborts")
+		for i := 0; i < n; i++ {
+			c.Aborts = append(c.Aborts, Abort{
+				After:  rapid.IntRange(0, len(c.Ops)).Draw(t, "abortAfter"),
+				FailAt: 262144*rapid.IntRange(1, 3).Draw(t, "abortBlocks") + rapid.SampledFrom([]int{0, 0, 1, 70000}).Draw(t, "abortExtra"),
+				Class:  rapid.SampledFrom([]string{"", "GLACIER"}).Draw(t, "abortClass"),
+			})
+		}
+	}
+	return c
+}
+
+func runCase(env *ev.Env, c Case) ev.Outcome {
 	var st run.ProgStats
+	step, abortsDone := 0, 0
+	doAborts := func(inst *stacks.Instance, o *ev.Outcome) bool {
+		for _, a := range c.Aborts {
+			n := len(c.Ops)
+			if n == 0 || ((a.After%n)+n)%n != step%n || a.FailAt < 1 || a.FailAt > 8<<20 {
+				continue
+			}
+			data := gen.BodySpec{Kind: "rand", Len: a.FailAt, Seed: 77}.Bytes()
+			var opts *storage.PutObjectOptions
+			if a.Class != "" {
+				cl := a.Class
+				opts = &storage.PutObjectOptions{StorageClass: &cl}
+			}
+			bn, kn := storage.MustNewBucketName(names.Buckets[0]), storage.MustNewObjectKey("aborted")
+			_, err := inst.Storage.PutObject(context.Background(), bn, kn, nil, &failingReader{r: bytes.NewReader(data)}, nil, opts)
+			o.Sub++
+			abortsDone++
+			if err == nil {
+				o.Failf("after step %d: PutObject whose source failed after %d bytes was accepted", step, a.FailAt)
+				return true
+			}
+		}
+		return false
+	}
 	suppliedBad, suppliedOK, multiPartSizes, reuse := 0, 0, false, false
 	appends := map[string]int{}
 	after := func(s *run.Session, inst *stacks.Instance, sr *run.StepResult, o *ev.Outcome) bool {
+		defer func() { step++ }()
+		if doAborts(inst, o) {
+			return true
+		}
 		if sr.Op.Supplied != "" {
 			if prog.SuppliedIsBad(sr.Op.Supplied) {
 				suppliedBad++
@@ -67,7 +145,7 @@ func runCase(env *ev.Env, c run.ProgCase) ev.Outcome {
 		}
 		return false
 	}
-	o := run.RunModelProgram(env, c, run.ModelRunOptions{Dump: dump.Options{Versions: true}, Names: names, Stats: &st, AfterStep: after})
+	o := run.RunModelProgram(env, c.ProgCase, run.ModelRunOptions{Dump: dump.Options{Versions: true}, Names: names, Stats: &st, AfterStep: after})
 	twoAppends := false
 	for _, n := range appends {
 		if n >= 2 {
@@ -86,6 +164,10 @@ func runCase(env *ev.Env, c run.ProgCase) ev.Outcome {
 	if reuse {
 		o.Class("copy-or-part-copy")
 	}
+	if abortsDone > 0 {
+		o.Class("aborted-upload-between-steps")
+		o.Count("aborted_uploads", abortsDone)
+	}
 	for k, v := range st.OKByKind {
 		o.Count("ok:"+k, v)
 	}
@@ -96,7 +178,7 @@ func runCase(env *ev.Env, c run.ProgCase) ev.Outcome {
 }
 
 func TestC04(t *testing.T) {
-	ev.Main(t, ev.Spec[run.ProgCase]{
+	ev.Main(t, ev.Spec[Case]{
 		ID:    "C04",
 		Level: "exploration",
 		Rule: "write-heavy programs (put, multipart with arbitrary part-size sequences incl. empty parts and both checksum types, UploadPartCopy of whole parts and ranges, append chains, copies) with optional supplied checksums/Content-MD5 that are right, wrong in one field, or right for another body, at put/part/append/complete; every ETag and checksum returned by a write or a following Head/Get/listing is compared with values recomputed from the model's bytes; " +
